@@ -38,7 +38,7 @@ GAS = ["H", "H2", "H+", "C", "C+", "CH", "O", "OH", "CO", "H2O", "He", "He+", "H
 
 def budget(tier):
     if tier == "quick":
-        return dict(examples=5, shards=16, shrink_calls=25)
+        return dict(examples=7, shards=16, shrink_calls=25)
     return dict(examples=120, shards=16, shrink_calls=300)
 
 
@@ -167,6 +167,13 @@ def _case(draw):
         ops.append([draw(st.sampled_from(["build", "build_edit", "build_keep", "render_kept", "render_cli", "render_cli", "render_api", "render_api", "render_grown", "render_plus_after_export", "render_bare", "faulty_krome", "render_objects_after_superset", "render_loader_kept"])), draw(st.integers(0, nd - 1))])
     if not any(o[0].startswith("render") for o in ops):
         ops.append(["render_cli", 0])
+    # scenarios that only matter for particular descriptions are steered to them (a description with a modifier is grown; a
+    # KROME description in the standard layout is read after a refused file)
+    for i, d in enumerate(descs):
+        if d["rate_mod"] and d["fmt"] != "krome" and draw(st.booleans()) and ["render_grown", i] not in ops:
+            ops.append(["render_grown", i])
+        if d["kind"] == "krome-standard-layout" and draw(st.booleans()):
+            ops += [["faulty_krome", 0], [draw(st.sampled_from(["render_cli", "render_api"])), i]]
     return {"descs": descs, "ops": ops}
 
 
